@@ -1696,11 +1696,16 @@ def c13_from_count_dict(npop):
             cnt = reals('c', len(entries))
             folded = []
 
+            handed_out = []
+
             def pol(fref):
                 if fref.qualname == '_cached_projection':
                     def h(ex, fr, args, kwargs):
                         a = [exact(x) for x in args]
-                        return VList([z3.Real('P(%s)[%d]' % (','.join(map(str, a)), j)) for j in range(a[0] + 1)], 'ndarray')
+                        orig = [z3.Real('P(%s)[%d]' % (','.join(map(str, a)), j)) for j in range(a[0] + 1)]
+                        v = VList(list(orig), 'ndarray')
+                        handed_out.append((v, orig))          # the object handed out IS the cache entry: it must come back untouched
+                        return v
                     return h
                 return 'inline' if fref.qualname.endswith('_from_count_dict') else 'abstract'
 
@@ -1727,6 +1732,9 @@ def c13_from_count_dict(npop):
                 out.append(struct(tag, False, 'expected one returning path: %r' % paths[:2], fn, undecided=True))
                 continue
             v = paths[0].value
+            untouched = all(len(vv.items) == len(o) and all(x is y for x, y in zip(vv.items, o)) for vv, o in handed_out)
+            out.append(struct(tag + '.cache-frame', untouched and bool(handed_out), 'the arrays returned by _cached_projection (the memo entries themselves) are not modified'
+                              if untouched else 'a projection vector obtained from the cache was modified in place: later look-ups of the same key return the altered weights', fn))
             if polarized:
                 arr = v
             else:
